@@ -95,6 +95,69 @@ func (fr *frame) name(v ssa.Value) string {
 	return "|" + n + "|"
 }
 
+// frozenSpill: x is the cell a parameter is spilled into (closures capture it) and the contract declares that
+// parameter `frozen`; the structural obligation <fn>:frozen:<name> (checked in the same run) shows that the spill is the
+// only store into the cell in the function and all its closures, so its content is the parameter whatever is called.
+func (fr *frame) frozenSpill(x *ssa.Alloc) bool {
+	if fr.contract == nil || x.Referrers() == nil {
+		return false
+	}
+	var param *ssa.Parameter
+	for _, r := range *x.Referrers() {
+		if st, ok := r.(*ssa.Store); ok && st.Addr == ssa.Value(x) {
+			if p, ok := st.Val.(*ssa.Parameter); ok {
+				param = p
+			}
+		}
+	}
+	if param == nil {
+		return false
+	}
+	for _, c := range fr.contract.Get("frozen") {
+		for _, name := range strings.Split(c.Text, ",") {
+			if strings.TrimSpace(name) == param.Name() {
+				return countStores(x, map[ssa.Value]bool{}) == 1 && cellOnlyCaptured(x, map[ssa.Value]bool{})
+			}
+		}
+	}
+	return false
+}
+
+// cellOnlyCaptured: the address v is only loaded from, stored to, or captured by closures that do the same; it is never
+// passed to a call, stored as a value or offset, so no code outside the function and its closures can write the cell.
+func cellOnlyCaptured(v ssa.Value, seen map[ssa.Value]bool) bool {
+	if seen[v] || v.Referrers() == nil {
+		return true
+	}
+	seen[v] = true
+	for _, r := range *v.Referrers() {
+		switch x := r.(type) {
+		case *ssa.DebugRef:
+		case *ssa.UnOp:
+			if x.Op != token.MUL {
+				return false
+			}
+		case *ssa.Store:
+			if x.Addr != v {
+				return false
+			}
+		case *ssa.MakeClosure:
+			fn, ok := x.Fn.(*ssa.Function)
+			if !ok {
+				return false
+			}
+			for i, b := range x.Bindings {
+				if b == v && !cellOnlyCaptured(fn.FreeVars[i], seen) {
+					return false
+				}
+			}
+		default:
+			return false
+		}
+	}
+	return true
+}
+
 func posOf(fn *ssa.Function, p token.Pos) string {
 	if !p.IsValid() {
 		return ""
@@ -608,6 +671,8 @@ func (fr *frame) encodeInstr(in ssa.Instruction, st *State, g string) {
 		vc.storeZero(st, r, et)
 		if !addrEscapes(x, map[ssa.Value]bool{}, 0) {
 			vc.localCells = append(vc.localCells, localCell{addr: r, typ: et, alloc: x})
+		} else if fr == fr.rootFr && fr.frozenSpill(x) {
+			vc.localCells = append(vc.localCells, localCell{addr: r, typ: et, alloc: x, frozen: true})
 		}
 	case *ssa.Store:
 		addr := fr.val(x.Addr)
